@@ -721,6 +721,11 @@ class Engine:
             return Module(desc["name"])
         if k == "class":
             if desc["qualname"].startswith("builtins.") or (desc.get("repo") and desc["qualname"] in self.facts.classes):
+                init = self.facts.classes.get(desc["qualname"], {}).get("members", {}).get("__init__") if desc.get("repo") else None
+                if init is not None and init.get("definer_repo") is False and not str(init.get("definer", "")).startswith("builtins."):
+                    # a repository subclass whose constructor is the dependency's (e.g. the custom Django lookup):
+                    # constructing it is an external constructor call
+                    return ExtRef(desc["qualname"], desc)
                 return ClassRef(desc)
             # classes of the dependencies, and repository subclasses of them whose module is not under contract
             # (e.g. the custom Django lookup): external constructors
